@@ -5,7 +5,7 @@ MC : specs/net/IOStreamContract.tla restricted to the read side (Read / Deliver 
      sequence of the read kinds (fixed, partial, into, until / regex with and without max_bytes,
      until-close); invariants ReadDataIsStreamSegment, PendingMeansUnsatisfied, action properties
      ConsumedOnlyByReads, MaxBytesRespected.
-S2C: every path of length <= 4 (thorough: longer streams, 3-byte deliveries, more read kinds) through the TLC state graph is replayed on a real BaseIOStream
+S2C: every path of length <= 4 (thorough: longer streams over {a,LF,CR}, more read kinds) through the TLC state graph is replayed on a real BaseIOStream
      over the in-memory transport (read_chunk_size 1/2/3/default, so deliveries straddle the
      stream's own chunking); the projection is compared after every step.  The specification is
      nondeterministic where the contract is (length of a partial read, what is still buffered at
@@ -28,7 +28,7 @@ def run(ctx):
     L = 4
     variants = ctx.pick(nd.VARIANTS[:2], nd.VARIANTS)
     net_common.s2c_stream(ctx, "GenG_IOStreamRead.cfg",
-                          ctx.pick({"L": L}, {"L": L, "MaxStream": 5, "MaxChunk": 3, "ReadIds": "{1, 3, 4, 7, 10, 11, 12, 13, 17, 19, 23, 25}", "Alphabet": "{97, 10, 13}"}),
+                          ctx.pick({"L": L}, {"L": L, "MaxStream": 5, "MaxChunk": 2, "ReadIds": "{1, 3, 4, 7, 10, 11, 12, 13, 17, 19, 23, 25}", "Alphabet": "{97, 10, 13}"}),
                           variants, spread=ctx.quick,
                           nontrivial=lambda e, p: len(p) >= 2 and any(s["act"] == "read" for s in p))
     # longer streams / bigger deliveries with the max_bytes reads followed by other kinds (no close ops)
